@@ -51,7 +51,10 @@ P = {
          ' Bounded stand-in for the rest: ' 'sort/mergesort vs sorted(enumerate(rows)) under the C04 reference ordering for all small tables x key forms x reverse x buffersize 1..n+1,None x cache x passes; mergesort == sort(cat).',
          TB + ' T1 (list.sort stable permutation), T5 (heapq.merge / shortlist merge) and T7 (pickle) trusted: the k-way merge and stability across chunks are decided by the bounded check only.', TECH_D),
  'C06': B('All pairs of small tables (None/mixed/compound keys, ragged, header-only, prefixes, missing) for the seven join operators vs a nested-loop relational reference: header, multiset, key order.'),
- 'C07': B('Hash joins vs the relational reference and vs their sort-merge twins, cache on/off, two passes, streamed-side order; lookup family vs a reference dict incl. strict.'),
+ 'C07': (True, 'proof',
+         "The probe loops of iterhashjoin, iterhashleftjoin and iterhashlookupjoin (real AST) are proved for ALL streamed tables and ALL lookup dictionaries (symbolic map through the contract of lookup/lookupone) by the nested stateless-body rule: a streamed row with key k yields one row per partner in lookup[k], each = the row followed by the partner's non-key cells (hashlookupjoin: the first partner only); a key that is absent yields nothing / the row padded with `missing`; hence output in the streamed side's order with the relational multiset."
+         ' Bounded stand-in for the rest (lookup family, right/anti joins, compound keys, cache, agreement with the merge joins): ' 'Hash joins vs the relational reference and vs their sort-merge twins, cache on/off, two passes, streamed-side order; lookup family vs a reference dict incl. strict.',
+         TB + ' The lookup dictionaries are ASSUMED to satisfy the contract of lookup()/lookupone() (key -> rows in table order / first row): not discharged, bounded-checked.', TECH_D),
  'C08': B('complement/intersection/diff/record*/hash* vs collections.Counter arithmetic for all pairs of small rectangular tables; partition law.'),
  'C09': B('Grouping/aggregation operators vs a dictionary-based reference grouping (ascending key order, input order inside groups, conservation of counts and sums) x spec forms x buffersize/presorted.'),
  'C10': (True, 'proof',
